@@ -102,6 +102,7 @@ theorem obsMem_closed (o : Obs) : Closed (fun e : Eff => o ∈ e.ps.obs) where
   hookLate := fun e pid hook h => h
   hookEarly := fun e id hook h => h
   level := fun e l h => h
+  hops := fun e l h => h
   obs := fun e o' ho h => List.mem_cons_of_mem _ h
 
 /-- **the value is sent as it is**: when a started process is resumed, its log records the resumption
@@ -129,5 +130,43 @@ theorem resumed_value_logged (now : Nat) (e : Eff) (pid tag : Nat) (p : Proc) (s
     simp only [segTerm]
     apply runHooks_closed (obsMem_closed _)
     exact List.mem_cons_of_mem _ h1
+
+/-! ### a future that is awaited directly and watched by combinators at the same time -/
+
+/-- **`resolve` wakes the parked process and then notifies every watcher**: on an unresolved future the
+    call marks it resolved, resumes the process parked on it (if any) and then runs *all* settle
+    callbacks registered on it (the `any_of` / `all_of` composites it is an input of), in registration
+    order — having a parked process does not exempt the watchers -/
+theorem resolve_wakes_then_notifies (fuel : Nat) (e : Eff) (now f : Nat) (v : Val)
+    (hr : (futGet e.ps.futs f).resolved = false) :
+    resolveFut (fuel + 1) e now f v
+      = (futGet e.ps.futs f).cbs.foldl (cbStep fuel now v) (markResolved e now f v) := by
+  rw [resolveFut_succ]
+  simp [hr]
+
+/-! ### hop counters kept in the event's metadata -/
+
+/-- **below the limit the packet is forwarded with the next hop count**: one fresh event, whose
+    metadata (looked up by its creation tag) carries `hops = h + 1` where `h` is what the running
+    handler's own event was delivered with -/
+theorem relay_forwards (now : Nat) (e : Eff) (tgt kind delay limit : Nat) (dm : Bool) (h : e.ps.cur < limit) :
+    (runAct now e (.relay tgt kind delay limit dm)).specs
+        = e.specs ++ [⟨now + delay, tgt, kind, dm, 0, e.ps.tagc + 1⟩] ∧
+    hopsAt (runAct now e (.relay tgt kind delay limit dm)).ps.hopsOf (e.ps.tagc + 1) = e.ps.cur + 1 ∧
+    (runAct now e (.relay tgt kind delay limit dm)).ps.procs = e.ps.procs := by
+  simp [runAct, h, Eff.push, hopsAt]
+
+/-- at the limit nothing happens -/
+theorem relay_stops (now : Nat) (e : Eff) (tgt kind delay limit : Nat) (dm : Bool) (h : ¬ e.ps.cur < limit) :
+    runAct now e (.relay tgt kind delay limit dm) = e := by
+  simp [runAct, h]
+
+/-- **what a handler reads is what the event was scheduled with**: the hop count a process starts with
+    depends on the event's creation tag only — a copy re-created by `reset()` (same tag, new creation
+    index, new delivery) starts the same process as the original did, whatever handlers stamped on the
+    delivered original in between -/
+theorem hops_by_tag (ps : PS) (ev ev' : Ev) (d : HandlerDef) (h : ev.tag = ev'.tag) :
+    (newProc ps ev d).hops = (newProc ps ev' d).hops := by
+  simp [newProc, h]
 
 end HappyModel.C01
